@@ -927,6 +927,7 @@ def _minmax(ex, name, args, kwargs):
         items = list(args)
     if not items:
         raise PyRaise('ValueError', '%s() iterable argument is empty' % name)
+    items = [SymScalar(_scalar_of(x), 'float', 'np.float64') if isinstance(x, STensor) and (x.ndim == 0) else x for x in items]
     for x in items:
         if isinstance(x, STensor):
             raise OutOfSubset('min/max over tensors')
@@ -1033,6 +1034,8 @@ def call_builtin(ex, f, args, kwargs):
             if is_sym(v):
                 return SymScalar(to_real(v), 'float', 'float')
             if isinstance(v, STensor):
+                if v.deps or (v.requires_grad and v.is_leaf):
+                    ex.grad_cuts.append(('float()', ex.cur_where()))
                 return SymScalar(_scalar_of(v), 'float', 'float')
             raise PyRaise('TypeError', 'float() argument')
         if n == 'bool':
@@ -1236,6 +1239,8 @@ def tensor_method(ex, t, name, args, kwargs):
     if name == 'item':
         if t.ndim and not all(T.known_eq(s, 1) for s in t.shape):
             raise OutOfSubset('item() of a non-scalar')
+        if t.deps or (t.requires_grad and t.is_leaf):
+            ex.grad_cuts.append(('item()', ex.cur_where()))
         return SymScalar(_scalar_of(t) if t._val is None or not t.at([(0,) * len(a.factors) for a in t.axes]).is_simple() else t.at([(0,) * len(a.factors) for a in t.axes]).simple_expr(), 'float')
     if name == 'requires_grad_':
         flag = args[0] if args else kwargs.get('requires_grad', True)
